@@ -9,6 +9,7 @@ import (
 	"go/token"
 	"go/types"
 	"os"
+	"path/filepath"
 	"reflect"
 	"sort"
 	"strings"
@@ -41,6 +42,10 @@ type Ctx struct {
 	// Inlined: the helpers (absent from the pinned tree) that were written back into their callers before the analysis
 	Inlined    []string
 	InlineNote string
+
+	// converted: functions of the pinned tree that are now methods of their first parameter's type, or the reverse
+	// (name in the pinned tree -> the function's object today)
+	converted map[string]*types.Func
 
 	aliasOnce sync.Once
 	aliases   map[types.Object]types.Object
@@ -90,6 +95,10 @@ func load(repo string, o loadOpts) (*Ctx, error) {
 		}
 		for k, v := range overlay {
 			o2.overlay[k] = v
+			if d := os.Getenv("DNSVERIF_DUMP_NORMALISED"); d != "" {
+				// diagnosis only: the rewritten source the analysis runs on
+				os.WriteFile(filepath.Join(d, filepath.Base(k)), v, 0o644)
+			}
 		}
 		c2, err2 := loadOnce(repo, o2)
 		if err2 != nil {
@@ -174,6 +183,7 @@ func loadOnce(repo string, o loadOpts) (*Ctx, error) {
 			}
 		}
 	}
+	c.registerConverted()
 	if o.needSSA {
 		prog, _ := ssautil.AllPackages(pkgs, ssa.InstantiateGenerics)
 		prog.Build()
@@ -184,6 +194,58 @@ func loadOnce(repo string, o loadOpts) (*Ctx, error) {
 		}
 	}
 	return c, nil
+}
+
+// funcAlias: the name, in the pinned tree, of a function that changed between method and plain function (see
+// registerConverted); objName reports that name, so that rules find its call sites.
+var funcAlias = map[*types.Func]string{}
+
+// registerConverted recognises `func (h T) f(a)` of the pinned tree rewritten as `func f(h T, a)` (and the reverse):
+// the function keeps its place under the old name — it is not a new helper, and the rules about T.f apply to it with
+// the receiver in the first parameter's place.
+func (c *Ctx) registerConverted() {
+	c.converted = map[string]*types.Func{}
+	var names []string
+	for k := range c.decls {
+		names = append(names, k)
+	}
+	sort.Strings(names)
+	for _, key := range names {
+		fd := c.decls[key]
+		obj := c.declObj[fd]
+		if obj == nil || baselineFuncs[key] {
+			continue
+		}
+		sig := obj.Type().(*types.Signature)
+		if fd.Recv == nil {
+			if sig.Params().Len() == 0 {
+				continue
+			}
+			t := sig.Params().At(0).Type()
+			if p, ok := t.(*types.Pointer); ok {
+				t = p.Elem()
+			}
+			n, ok := t.(*types.Named)
+			if !ok || n.Obj().Pkg() != c.Types {
+				continue
+			}
+			old := n.Obj().Name() + "." + fd.Name.Name
+			if baselineFuncs[old] && c.decls[old] == nil {
+				c.decls[old] = fd
+				delete(c.decls, key)
+				c.converted[old] = obj
+				funcAlias[obj] = "(" + n.Obj().Name() + ")." + fd.Name.Name
+			}
+		} else {
+			old := fd.Name.Name
+			if baselineFuncs[old] && c.decls[old] == nil {
+				c.decls[old] = fd
+				delete(c.decls, key)
+				c.converted[old] = obj
+				funcAlias[obj] = old
+			}
+		}
+	}
 }
 
 func recvTypeName(e ast.Expr) string {
@@ -283,6 +345,9 @@ func objName(o types.Object) string {
 		}
 		return o.Name()
 	}
+	if a, ok := funcAlias[f]; ok {
+		return a
+	}
 	sig := f.Type().(*types.Signature)
 	if r := sig.Recv(); r != nil {
 		t := r.Type()
@@ -343,13 +408,49 @@ func (c *Ctx) fieldPath(e ast.Expr, root types.Object) (string, bool) {
 }
 
 func (c *Ctx) recvObj(fd *ast.FuncDecl) types.Object {
+	if fd.Recv == nil && c.convertedKind(fd) == 'm' {
+		// a method of the pinned tree that is a plain function now: its receiver is the first parameter
+		for _, f := range fd.Type.Params.List {
+			for _, id := range f.Names {
+				return c.Info.Defs[id]
+			}
+		}
+	}
 	if fd.Recv == nil || len(fd.Recv.List) != 1 || len(fd.Recv.List[0].Names) != 1 {
 		return nil
 	}
 	return c.Info.Defs[fd.Recv.List[0].Names[0]]
 }
 
+// convertedKind: 'm' when fd stands for a method of the pinned tree but is a plain function today, 'f' for the
+// reverse, 0 otherwise.
+func (c *Ctx) convertedKind(fd *ast.FuncDecl) byte {
+	obj := c.declObj[fd]
+	if obj == nil {
+		return 0
+	}
+	if name, ok := funcAlias[obj]; ok {
+		if strings.HasPrefix(name, "(") {
+			return 'm'
+		}
+		return 'f'
+	}
+	return 0
+}
+
 func (c *Ctx) paramObj(fd *ast.FuncDecl, i int) types.Object {
+	switch c.convertedKind(fd) {
+	case 'm':
+		i++
+	case 'f':
+		if i == 0 {
+			if len(fd.Recv.List) == 1 && len(fd.Recv.List[0].Names) == 1 {
+				return c.Info.Defs[fd.Recv.List[0].Names[0]]
+			}
+			return nil
+		}
+		i--
+	}
 	n := 0
 	for _, f := range fd.Type.Params.List {
 		for _, id := range f.Names {
@@ -611,6 +712,9 @@ func (c *Ctx) implementers(iface string) []*types.Named {
 func (c *Ctx) ssaFunc(name string) *ssa.Function {
 	if c.SSA == nil {
 		return nil
+	}
+	if obj, ok := c.converted[name]; ok {
+		return c.Prog.FuncValue(obj)
 	}
 	if i := strings.IndexByte(name, '.'); i >= 0 {
 		tn, mn := name[:i], name[i+1:]
